@@ -143,12 +143,27 @@ def regen():
     rc, out = sh([os.path.join(BUILD, "trans"), REPO, gen], timeout=300)
     if rc != 0:
         raise BuildError("translator failed:\n" + out)
+    if "generator(s) failed" in out:
+        # a generator that cannot follow the source writes a non-compiling stub for ITS file only:
+        # the properties stated over that table stop checking, every other check is unaffected
+        log(out.strip()[-600:])
     # O ties: lib/obs_<name>.py with observe(gen_dir) runs the real code (build/implrun) over a
     # finite domain and writes the observed table(s) into coq/Gen (only when changed)
     import importlib
     for fn in sorted(os.listdir(os.path.join(VERIF, "lib"))):
         if fn.startswith("obs_") and fn.endswith(".py"):
-            importlib.import_module(fn[:-3]).observe(gen)
+            mod = importlib.import_module(fn[:-3])
+            try:
+                mod.observe(gen)
+            except BuildError:
+                raise
+            except Exception as e:      # the observation itself broke: only its own tables become stubs
+                log("observer %s failed: %r" % (fn, e))
+                for name in getattr(mod, "OUTPUTS", []):
+                    with open(os.path.join(gen, name), "w") as f:
+                        f.write("(* OBSERVATION FAILED - the tie to the source is broken: %s *)\n"
+                                "Definition observation_of_%s_failed : False := I.\n"
+                                % (str(e).replace("*)", "* )").replace("\n", " ")[:300], name[:-2]))
 
 
 def coq_project():
